@@ -303,9 +303,9 @@ func controlConds(b *ssa.BasicBlock) []ssa.Value {
 func branchLeadsTo(d *ssa.BasicBlock, i int, b *ssa.BasicBlock) bool {
 	s := d.Succs[i]
 	if s == b {
-		return len(s.Preds) == 1 || d.Dominates(s)
+		return len(s.Preds) == 1 // a join block is reached from both branches
 	}
-	return s.Dominates(b) && d.Dominates(s)
+	return s.Dominates(b) && d.Dominates(s) && len(s.Preds) == 1
 }
 
 // findCalls returns the call instructions in f whose static callee satisfies pred.
